@@ -5,38 +5,25 @@ import (
 	"fmt"
 	"image"
 	"math/rand"
-	"runtime"
+	"time"
 
 	"github.com/deepteams/webp"
 )
 
 func main() {
-	for _, procs := range []int{1, 8} {
-		runtime.GOMAXPROCS(procs)
-		for seed := int64(1); seed <= 4; seed++ {
-			rng := rand.New(rand.NewSource(seed))
-			w, h := 200, 150
-			p := image.NewNRGBA(image.Rect(0, 0, w, h))
-			for y := 0; y < h; y++ {
-				for x := 0; x < w; x++ {
-					i := p.PixOffset(x, y)
-					p.Pix[i] = uint8((x*255/w + rng.Intn(12)) & 255)
-					p.Pix[i+1] = uint8((y*255/h + rng.Intn(12)) & 255)
-					p.Pix[i+2] = uint8(((x+y)*2 + rng.Intn(30)) & 255)
-					p.Pix[i+3] = 255
-				}
-			}
-			for _, m := range []int{2, 3, 4, 6} {
-				for part := 0; part <= 3; part++ {
-					var buf bytes.Buffer
-					err := webp.Encode(&buf, p, &webp.EncoderOptions{Quality: 40, Method: m, Partitions: part})
-					_, derr := webp.Decode(bytes.NewReader(buf.Bytes()))
-					if err != nil || derr != nil {
-						fmt.Println("procs", procs, "seed", seed, "method", m, "partitions", part, "enc", err, "dec", derr)
-					}
-				}
-			}
-		}
+	w, h := 16000, 5200
+	img := image.NewNRGBA(image.Rect(0, 0, w, h))
+	rng := rand.New(rand.NewSource(1))
+	rng.Read(img.Pix)
+	for i := 3; i < len(img.Pix); i += 4 {
+		img.Pix[i] = 255
 	}
-	fmt.Println("done")
+	t0 := time.Now()
+	var buf bytes.Buffer
+	err := webp.Encode(&buf, img, &webp.EncoderOptions{Quality: 100, Method: 3, Segments: 1})
+	fmt.Println("encode err:", err, "bytes:", buf.Len(), time.Since(t0))
+	if err == nil {
+		_, derr := webp.Decode(bytes.NewReader(buf.Bytes()))
+		fmt.Println("decode err:", derr)
+	}
 }
